@@ -33,6 +33,37 @@ Theorem C01_confirmed_frames_use_held_inputs :
       f < hlen hist /\ gvalL (g_hist g) f h = hval hist f.
 Proof. exact confirmed_frames_use_held_inputs. Qed.
 
+(* Remote players in closed form: every confirmed frame f that has been simulated was LAST simulated,
+   for every remote player pl, with the f-th input delivered for pl during the run ([remote_vals pl ops]:
+   the values of the SRemote pl operations, in order) - nothing lost, duplicated, reordered, altered,
+   or replaced by a prediction that was never corrected. *)
+Theorem C01_confirmed_frames_use_delivered_inputs :
+  forall (predict : Z -> Z), (forall x, predict (predict x) = predict x) -> predict 0 = 0 ->
+  forall (ops : list sop) (n w d : Z) (kinds : list pkind) (eps : list (list Z)) (p : p2p) (outs : list (pout * apires)),
+  1 <= w -> 0 <= d -> w + d + 3 <= INPUT_QUEUE_LENGTH -> 0 < n -> Z.of_nat (length kinds) = n -> players_only kinds ->
+  srun_in predict (session_start n w false d kinds eps 0) ops = Ok (p, outs) ->
+  exists g, exec_outs w (game0 w) outs = Some g /\ gframe g = s_current (ps_sync p) /\
+    forall pl e f, 0 <= pl -> nth_error kinds (Z.to_nat pl) = Some (KRemote e) ->
+      0 <= f <= s_last_confirmed (ps_sync p) -> f < s_current (ps_sync p) ->
+      f < hlen (remote_vals pl ops) /\ gvalL (g_hist g) f (Z.to_nat pl) = hval (remote_vals pl ops) f.
+Proof. exact confirmed_frames_use_delivered_inputs. Qed.
+
+(* Local players, call by call (the invariants QS, JI, TI hold in every reachable state -
+   SessionTimeline.run_timeline): an operation inside the space succeeds, re-establishes the invariants
+   and changes the held histories exactly as [op_hist] says: add_local_input and gossip change none; an
+   arriving remote input is appended to that player's history; advance_frame appends to the history of a
+   local player at most that player's pending input - the value of the last add_local_input for it -
+   preceded by d blank inputs (the input delay) when it is the player's first input, and touches no
+   remote player's history (hist_step).  With C01_confirmed_frames_use_held_inputs: the confirmed
+   timeline is the serial replay of the inputs really submitted, shifted by the delay. *)
+Theorem C01_held_inputs_step :
+  forall (predict : Z -> Z), (forall x, predict (predict x) = predict x) -> predict 0 = 0 ->
+  forall (p : p2p) (gs : list ghost) (g : game) (w d : Z) (o : sop),
+  QS w d p gs -> JI w p g -> TI predict p gs (g_hist g) -> op_ok p o = true ->
+  exists s gs' g', sstep predict p o = Ok s /\ QS w d (sr_state s) gs' /\ JI w (sr_state s) g' /\
+    TI predict (sr_state s) gs' (g_hist g') /\ op_hist d p o gs gs'.
+Proof. exact held_inputs_step. Qed.
+
 (* the two predictors ggrs ships: PredictRepeatLast and PredictDefault (default input = 0 in the model) *)
 Example C01_predictors_qualify :
   (forall x : Z, (fun y => y) ((fun y => y) x) = (fun y => y) x) /\ (fun y : Z => y) 0 = 0 /\
